@@ -26,12 +26,22 @@ def py_answer(f):
         return 2
 
 
-def eval_pairs(L, tab, pairs):
+def eval_pairs(L, tab, pairs, rng=None):
     b = T.Builder(L, tab)
     out = []
     for s, t in pairs:
         try:
-            so, to = b.obj(s), b.obj(t)
+            so = b.obj(s)
+            if rng is not None and s[0] in ("A", "C") and rng.random() < 0.25:
+                # closure-directed: the right-hand side is one of the implementation's own
+                # transitive supertypes of s (possibly edited once)
+                sups = sorted(so.get_supertypes(), key=str)
+                t = T.reify(L, rng.choice(sups))
+                if rng.random() < 0.3:
+                    t = T.perturb(rng, L, tab, t, [])
+                if T.nested_nothing(t):
+                    continue
+            to = b.obj(t)
         except Exception:                   # noqa: BLE001  (not constructible with the real constructors)
             continue
         out.append((s, t, py_answer(lambda: so.is_subtype(to)), py_answer(lambda: so.is_assignable(to))))
@@ -49,10 +59,10 @@ def coq_file(groups, fuel=40):
         cs = "; ".join("(%s, %s, %d, %d)" % (T.cterm(s), T.cterm(t), a, b) for s, t, a, b in cases)
         gs.append("(%s,\n  [%s])" % (coq_world(lang, tab), cs))
     return (C.CASE_HEADER + "From Coq Require Import List Arith Bool.\nImport ListNotations.\n"
-            "From Heph Require Import Types.Syntax Types.Subst Types.Subtype Types.Decl Types.Corr Generated.Builtins.\n"
+            "From Heph Require Import Types.Syntax Types.Subst Types.Subtype Types.Decl Types.Corr Types.Judge Generated.Builtins.\n"
             "Definition gs : list sub_group := [\n%s\n].\n"
             "Eval vm_compute in (group_mismatches %d 0 gs).\n"
-            "Eval vm_compute in (group_unsound %d 0 gs).\n" % (";\n".join(gs), fuel, fuel))
+            "Eval vm_compute in (group_judge %d 0 gs).\n" % (";\n".join(gs), fuel, 60))
 
 
 def parse_pairs(s):
@@ -62,13 +72,24 @@ def parse_pairs(s):
     return [tuple(int(x) for x in m) for m in re.findall(r"\((\d+),\s*(\d+)\)", body)]
 
 
+def parse_triples(s):
+    body = s.split(" : ")[0].strip()
+    if body in ("[]", "nil"):
+        return []
+    return [tuple(int(x) for x in m) for m in re.findall(r"\((\d+),\s*(\d+),\s*(\d+)\)", body)]
+
+
+JUDGE = {1: "unsound-core", 2: "unsound-projection", 3: "unsound-tyvar", 4: "incomplete-ground",
+         5: "reference-out-of-fuel", 6: "unsound-malformed"}
+
+
 def run(tier, seed, replay=None):
     rep = C.Report("C06", tier, seed, "proof")
     C.setup_repo_import(seed)
     T.emit_generated()
     proof_ok = C.proof_part(rep, "Types/Properties_C06.v",
                             ["Generated/Builtins.vo", "Types/Syntax.vo", "Types/Subst.vo", "Types/Subtype.vo",
-                             "Types/Decl.vo", "Types/Corr.vo", "Types/SubtypeSound.vo"],
+                             "Types/Decl.vo", "Types/Corr.vo", "Types/Judge.vo", "Types/SubtypeSound.vo"],
                             ["Types", "Generated"])
     rng = random.Random(C.sub_seed(seed, "c06"))
     langs = {l: T.Lang(l) for l in T.LANGS}
@@ -89,7 +110,7 @@ def run(tier, seed, replay=None):
             malformed = (i % 8 == 7)
             tab = T.gen_table(rng, L, conforming=(i % 5 != 4))
             pairs = [T.gen_pair(rng, L, tab, malformed) for _ in range(40)]
-            groups.append((lang, tab, eval_pairs(L, tab, pairs)))
+            groups.append((lang, tab, eval_pairs(L, tab, pairs, rng)))
 
     chunk = 10
     files = [("c06_%d" % (k // chunk), coq_file(groups[k:k + chunk])) for k in range(0, len(groups), chunk)]
@@ -105,8 +126,8 @@ def run(tier, seed, replay=None):
         vals = C.parse_eval_outputs(out)
         for (g, c) in parse_pairs(vals[-2]):
             mism.append((k * chunk + g, c // 2, c % 2))
-        for (g, c) in parse_pairs(vals[-1]):
-            unsound.append((k * chunk + g, c))
+        for (g, c, code) in parse_triples(vals[-1]):
+            unsound.append((k * chunk + g, c, code))
     C.clean_cases("c06_")
 
     n = 0
@@ -125,13 +146,18 @@ def run(tier, seed, replay=None):
             T.term_kinds(t, kinds)
             d = max(T.term_depth(s), T.term_depth(t))
             depths[d] = depths.get(d, 0) + 1
-    for (g, c) in unsound:
+    jhist = {}
+    for (g, c, code) in unsound:
         lang, tab, cases = groups[g]
         s, t, a, b = cases[c]
-        rep.violation("unsound", "%s: is_subtype(%s, %s) answers True but the declarative relation refutes it"
-                      % (lang, T.cterm(s), T.cterm(t)),
-                      dict(lang=lang, table={k: list(v) for k, v in tab.items()}, s=s, t=t, impl=a))
-    bad_groups = {g for g, _ in unsound}
+        jhist[JUDGE[code]] = jhist.get(JUDGE[code], 0) + 1
+        if code == 5:
+            continue
+        rep.violation(JUDGE[code], "%s: is_subtype(%s, %s) answers %s but the declarative relation says %s [%s]"
+                      % (lang, T.cterm(s), T.cterm(t), bool(a), "no" if a else "yes", JUDGE[code]),
+                      dict(lang=lang, table={k: list(v) for k, v in tab.items()}, s=s, t=t, impl=a, shape=JUDGE[code]))
+    rep.add(judge_histogram=jhist)
+    bad_groups = {g for g, _, code in unsound if code != 5}
     for (g, c, which) in mism:
         lang, tab, cases = groups[g]
         s, t, a, b = cases[c]
